@@ -97,6 +97,9 @@ def bool_tested(fn, steps, truth, sw_bb, depth=0):
         if nm in ("eq", "ne") and len(c.args) == 2:
             op = "Eq" if (nm == "eq") == truth else "Ne"
             out.append(Fact("cmp", sw_bb, op=op, lhs=fn.origin(c.args[0]), rhs=fn.origin(c.args[1]), raw_op=nm, truth=truth))
+    elif k == "arg" and len(last) > 2 and any(pr[0] == "f" for st in steps for pr in (st[2] if len(st) > 2 else [])):
+        # a bool field of a parameter (configuration flag)
+        out.append(Fact("boolplace", sw_bb, steps=steps, truth=truth, desc=describe_origin(fn, steps)))
     elif k == "multi":
         # a bool variable assigned on several paths (match arms): the fact holds for whichever definition ran
         local = last[1]
